@@ -72,6 +72,7 @@ import (
 	"fmt"
 	"io"
 	"os"
+	"runtime"
 	"strconv"
 	"sync"
 
@@ -99,6 +100,32 @@ type job struct {
 	// CompFailAfter >= 0: the component parameter writes that many bytes of its marker, then fails.
 	CompFailAfter int ` + "`json:\"comp_fail_after\"`" + `
 	Chunk         int ` + "`json:\"chunk\"`" + ` // > 0: the writer accepts at most that many bytes per Write call
+	// Bufio 1..3: render into the caller's own long-lived *bufio.Writer number Bufio (sizes 4096,
+	// 8192, 4096), which is flushed after the render; Out is what reached its sink during this job.
+	Bufio int ` + "`json:\"bufio\"`" + `
+	// GC: run two garbage collections first, which empties sync.Pools.
+	GC bool ` + "`json:\"gc\"`" + `
+}
+
+type bufSlot struct {
+	sink bytes.Buffer
+	bw   *bufio.Writer
+}
+
+var bufSlots = map[int]*bufSlot{}
+
+func slotFor(n int) *bufSlot {
+	if s, ok := bufSlots[n]; ok {
+		return s
+	}
+	s := &bufSlot{}
+	size := 4096
+	if n == 2 {
+		size = 8192
+	}
+	s.bw = bufio.NewWriterSize(&s.sink, size)
+	bufSlots[n] = s
+	return s
 }
 
 type result struct {
@@ -158,6 +185,18 @@ func failingMarker(after int) templ.Component {
 
 func runJob(j job, parallel bool) (r result) {
 	w := &faultWriter{failAt: j.WriterFailAt, zero: j.Zero}
+	var dst io.Writer = w
+	var slot *bufSlot
+	before := 0
+	if j.GC {
+		runtime.GC()
+		runtime.GC()
+	}
+	if j.Bufio > 0 && !parallel {
+		slot = slotFor(j.Bufio)
+		before = slot.sink.Len()
+		dst = slot.bw
+	}
 	if !parallel {
 		Trace = nil
 	}
@@ -179,7 +218,7 @@ func runJob(j job, parallel bool) (r result) {
 			ctx = c
 		}
 		c := roots[j.K](a.S1, a.S2, a.B1, a.B2, a.N, a.XS, a.Fail, comp)
-		if err := c.Render(ctx, w); err != nil {
+		if err := c.Render(ctx, dst); err != nil {
 			r.Err = err.Error()
 			r.Boom = errors.Is(err, errBoom)
 			r.WriterErr = errors.Is(err, errWriter)
@@ -193,6 +232,12 @@ func runJob(j job, parallel bool) (r result) {
 		}
 	}()
 	r.Out = w.buf.Bytes()
+	if slot != nil {
+		if err := slot.bw.Flush(); err != nil && r.Err == "" {
+			r.Err = "flush of the caller's bufio.Writer: " + err.Error()
+		}
+		r.Out = append([]byte(nil), slot.sink.Bytes()[before:]...)
+	}
 	if !parallel {
 		r.Trace = Trace
 	}
